@@ -129,7 +129,7 @@ Section Describe.
                    end;
        rt_possible := match t with
                       | NInterface _ _ _ => Some (map ref_to (implementers n))
-                      | NUnion ms _ _ => Some (map ref_to ms)
+                      | NUnion ms _ _ => Some (map ref_to (filter (visible_type S F) ms))
                       | _ => None
                       end |}.
 
@@ -175,6 +175,44 @@ End Refs.
 Arguments refs_resolve {D}.
 Arguments all_refs {D}.
 
+(** ** what a query can see of a wrapper chain
+
+    A query selects [kind name] and nests [ofType] a fixed number of times; fragments cannot be
+    recursive, so no single document sees chains of every length.  [cut_ref d r] is what a query
+    nesting to [d] levels (the named type included) sees of the reference [r]; [truncate d] cuts
+    every field, argument, input field and directive argument type of a description. *)
+Fixpoint cut_ref (d : nat) (r : tref) : option tref :=
+  match d with
+  | O => None
+  | Datatypes.S d' =>
+      match r with
+      | TRef k n o => Some (TRef k n (match o with Some r' => cut_ref d' r' | None => None end))
+      end
+  end.
+Definition cut_top (d : nat) (r : tref) : tref :=
+  match cut_ref d r with Some x => x | None => TRef None None None end.
+
+Section Truncate.
+  Variable D : Type.
+  Variable d : nat.
+  Definition trunc_input (i : r_input D) : r_input D :=
+    {| ri_name := ri_name i; ri_desc := ri_desc i; ri_type := cut_top d (ri_type i); ri_default := ri_default i |}.
+  Definition trunc_field (f : r_field D) : r_field D :=
+    {| rf_name := rf_name f; rf_desc := rf_desc f; rf_args := map trunc_input (rf_args f);
+       rf_type := cut_top d (rf_type f); rf_deprecated := rf_deprecated f; rf_reason := rf_reason f |}.
+  Definition trunc_type (t : r_type D) : r_type D :=
+    {| rt_kind := rt_kind t; rt_name := rt_name t; rt_desc := rt_desc t;
+       rt_fields := option_map (map trunc_field) (rt_fields t);
+       rt_inputs := option_map (map trunc_input) (rt_inputs t);
+       rt_ifaces := rt_ifaces t; rt_enums := rt_enums t; rt_possible := rt_possible t |}.
+  Definition trunc_directive (x : r_directive D) : r_directive D :=
+    {| rd_name := rd_name x; rd_desc := rd_desc x; rd_locs := rd_locs x; rd_args := map trunc_input (rd_args x) |}.
+  Definition truncate (r : r_schema D) : r_schema D :=
+    {| rs_query := rs_query r; rs_mutation := rs_mutation r; rs_subscription := rs_subscription r;
+       rs_types := map trunc_type (rs_types r); rs_directives := map trunc_directive (rs_directives r) |}.
+End Truncate.
+Arguments truncate {D}.
+
 (** ** hypotheses under which the implementation is expected to meet the description *)
 
 (** wrapper chains the query can see to the end: at most [query_depth] levels, the named type
@@ -195,8 +233,9 @@ Definition depth_ok (S : schema) : bool :=
   && forallb (fun d => forallb depth_ok_input (dd_args (snd d))) (directives S).
 
 (** feature gating is coherent across "implements": an object and an interface it declares are
-    visible together.  (Where this fails the listings [interfaces] / [possibleTypes] name types
-    the request cannot see: that is property C13's subject, DESIGN section 6 rows 17 and 30.) *)
+    visible together.  No theorem needs this any more (the listings [interfaces] /
+    [possibleTypes] are filtered by the request's features since the repair of DESIGN section 6
+    row 17); it is kept as a classifier: the check reports how often the generator leaves it. *)
 Definition gating_coherent (S : schema) (F : features) : bool :=
   forallb (fun o => match lookup o (types S) with
                     | Some (NObject _ ifs _ _) =>
